@@ -122,6 +122,7 @@ static void install_rules(struct isal_hufftables *ht, vrng *r)
 	uint8_t *in = gs_place(s_in, n, G_END, 0); memcpy(in, data, n); uint8_t *out = gs_place(s_out, 70000, G_END, 0);
 	if (V_TRY(30)) {
 		isal_deflate_init(s); s->next_in = in; s->avail_in = (uint32_t) n; s->next_out = out; s->avail_out = vrn(r, 3) ? 1 + vrn(r, 200) : 8 + vrn(r, 16); s->flush = (uint16_t) vrn(r, 3); s->end_of_stream = vrn(r, 4) == 0; if (vrn(r, 5) == 0) { s->avail_in = (uint32_t) vrn(r, 40); s->avail_out = 1 + vrn(r, 12); }
+		n = s->avail_in;   /* what the stream is given in total */
 		int calls = 1 + vrn(r, 4); for (int c = 0; c < calls; c++) { isal_deflate(s); if (c + 1 < calls) s->avail_out += vrn(r, 40); }
 		int st = s->internal_state.state; struct isal_hufftables *before = s->hufftables;
 		int type = vrn(r, 6); int rc;
@@ -131,7 +132,14 @@ static void install_rules(struct isal_hufftables *ht, vrng *r)
 			if (st != ZSTATE_NEW_HDR) { if (rc == COMP_OK) { snprintf(key, sizeof key, "set_hufftables:accepted-while-block-open:state%d", st); v_viol(key, "table type %d installed in state %d (a block is open)", t, st); } else { st_set_refused++; if (s->hufftables != before) v_viol("set_hufftables:refusal-has-side-effects", "refused but stream->hufftables changed"); } }
 			else { if (rc != COMP_OK) v_viol("set_hufftables:refused-in-NEW_HDR", "refused with %d although no block is open", rc); else st_set_accepted++; } }
 		{ char e[24]; snprintf(e, sizeof e, "state%d", st); v_count("set_hufftables_states_probed", e, 1); }
+		/* whatever the call answered, the stream must still come out right: finish it and decode it (an accepted table has to take effect at a block boundary) */
+		int guard = 0; s->end_of_stream = 1; s->flush = NO_FLUSH; s->avail_out = (uint32_t) (70000 - (s->next_out - out));
+		while (s->internal_state.state != ZSTATE_END && ++guard < 10000) { if (isal_deflate(s) != COMP_OK) break; }
+		size_t produced = (size_t) (s->next_out - out); int ended = s->internal_state.state == ZSTATE_END;
 		V_END;
+		if (ended) { static rinf_t ri; memset(&ri, 0, sizeof ri); ri.in = out; ri.inlen = produced; ri.out = dec; ri.outcap = n + 1024; int e = rinflate(&ri);
+			if (e || ri.outlen != n || memcmp(dec, data, n)) { snprintf(key, sizeof key, "roundtrip-fails:after-set_hufftables:state%d:%s", st, rc == COMP_OK ? "accepted" : "refused"); v_viol(key, "stream does not decode to the input after isal_deflate_set_hufftables returned %d in state %d: err %s out %zu/%zu", rc, st, ri_errname(ri.err), ri.outlen, n); }
+			else st_roundtrips++; }
 	} else fault_key("isal_deflate_set_hufftables");
 	gs_reset(s_ctx); gs_reset(s_in); gs_reset(s_out);
 }
